@@ -647,3 +647,46 @@ def run_c03(run, rng, tier):
             check_decoder(run, c, m, key, syn, field, line, o, accepted_value)
         run.sample({"prima_type": cs[0]["pty"][:120], "value": cs[0]["vs"][:80], "uper_std": cs[0]["uper1"][:60]})
     run.count("prima_wall_s", int(time.time() - t0))
+
+
+# ---------------------------------------------------------------- C06 (canonical encodings)
+
+def run_c06(run, rng, tier):
+    """canonical encodings do not depend on what the application's buffer holds in the unused bits of the last octet
+    of a BIT STRING: the directly constructed values of module PB, clean and with junk there, through DER / canonical
+    UPER / canonical OER against the model (every SIZE regime)"""
+    t0 = time.time()
+    rng = own_rng(run, 6)
+    try:
+        model = model_build()
+        real = primagen.gen_modules
+        primagen.gen_modules = lambda r, t: [m for m in real(r, t) if m["name"] == "PB"]
+        try:
+            mods = build(run, rng, tier, "primac06")
+        finally:
+            primagen.gen_modules = real
+        cases = [c for c in make_cases(mods, rng, tier) if c["cat"] == "bits" and len(c["v"][1]) % 8 and len(c["v"][1]) <= primagen.BIG]
+        cases = model_encode(model, cases)
+    except (BuildError, RuntimeError) as e:
+        run.violation("prima:build", {"what": str(e)[-2500:]}, no_input=True)
+        return
+    for m in mods:
+        cs = [c for c in cases if c["m"] is m]
+        lines, meta = [], []
+        for c in cs:
+            for syn, k0 in (("der", "der"), ("cper", "uper"), ("coer", "oer")):
+                lines.append("pbits %s %s 1 %s" % (c["tn"], c["v"][1], syn))
+                meta.append((c, syn, k0))
+        if not lines:
+            continue
+        out = run_mod(run, m, lines, "prima:C06")
+        for (c, syn, k0), line, o in zip(meta, lines, out):
+            run.case("prima:" + m["name"] + ":" + line[:300] + str(len(line)))
+            run.count("prima_dirty_" + syn)
+            exp = ("OK " + c[k0]) if c[k0] != "NONE" else "ENCFAIL"
+            got = o if not o.startswith("ENCFAIL") else "ENCFAIL"
+            if got != exp:
+                run.violation("prima:oracle:dirty-unused-bits:%s" % syn,
+                              replay_of(c, syntax=syn, command_line=line[:3000], c=o[:3000], model=exp[:3000],
+                                        what="the canonical encoding of a BIT STRING depends on junk in the unused bits of its last octet"))
+    run.count("prima_wall_s", int(time.time() - t0))
